@@ -38,7 +38,7 @@ package index
 //@   modifies nothing
 //@ end
 //@ func Sequence.Sync
-//@   prop C09
+//@   prop C07 C09
 //@   clock
 //@   requires idSeqOK(s) && len(s.buf) >= 16 && offset(s.buf) == 0
 //@   modifies s.buf[*], s.syncedAt
@@ -59,7 +59,7 @@ package index
 //@   ensures self.flushedAt == now()
 //@ end
 //@ func metricMetaDatabase.Flush
-//@   prop C09
+//@   prop C07 C09
 //@   clock
 //@   requires mm.sequence != nil && idSeqOK(mm.sequence) && len(mm.sequence.buf) >= 16 && offset(mm.sequence.buf) == 0 && mm.ns != nil && mm.metric != nil && mm.tagValue != nil && mm.schemaStore != nil && mm.ns != mm.metric && mm.ns != mm.tagValue && mm.metric != mm.tagValue && mm.schemaStore != mm.ns && mm.schemaStore != mm.metric && mm.schemaStore != mm.tagValue
 //@   modifies mm.sequence.buf[*], mm.sequence.syncedAt, mm.ns.flushedAt, mm.metric.flushedAt, mm.tagValue.flushedAt, mm.schemaStore.flushedAt, mm.flushing.val
